@@ -255,7 +255,8 @@ Theorem network_client_stays_in_sync s c e d o :
     sy_cls (sstep s (SDrv e o)) = [c'] /\
     net_synced (cl_mirror c') (fst (step d o)) /\ dev_ok (fst (step d o)) /\
     find_dev (sstep s (SDrv e o)) e = Some (fst (step d o)) /\
-    one_client (sstep s (SDrv e o)) c' (d_name (fst (step d o))) /\ cl_in_ctl c' = [] /\ cl_in_blob c' = [].
+    one_client (sstep s (SDrv e o)) c' (d_name (fst (step d o))) /\ cl_in_ctl c' = [] /\ cl_in_blob c' = [] /\
+    cl_ctl c' = cl_ctl c /\ cl_blob c' = cl_blob c.
 Proof.
   intros O I1 I2 Fd He1 He2 D T (mi0 & S0 & Em & K0) Nb.
   destruct (step_synced d o mi0 D S0 T) as (D1 & S1 & N1 & Ab).
@@ -263,11 +264,38 @@ Proof.
   { rewrite Em. unfold nm. rewrite (dget_map cd_name nm_dev (fun _ => eq_refl)). destruct (dget cd_name (d_name d) mi0); [discriminate|contradiction]. }
   destruct (driver_operation_is_delivered s c (d_name d) e d o O I1 I2 Kc Fd eq_refl He1 He2 Ab)
     as (c' & Cls & Mir & J1 & J2 & Fd' & Sr & F1 & F2 & F3).
-  exists c'. split; [exact Cls|]. split; [|split; [exact D1|split; [exact Fd'|split; [|split; assumption]]]].
+  exists c'. split; [exact Cls|]. split; [|split; [exact D1|split; [exact Fd'|split; [|repeat split; assumption]]]].
   - exists (feed mi0 (pubs (snd (step d o)))). split; [exact S1|]. split.
     + rewrite Mir, Em. unfold delivered_stream.
       rewrite (filter_all (fun m => negb (is_blob_msg m))) by (eapply Forall_impl; [|exact Nb]; intros m Hm; cbn; now rewrite Hm).
       rewrite (filter_none is_blob_msg _ Nb). cbn [map]. rewrite app_nil_r. unfold feed, wire. apply feed_norm.
     + rewrite N1. apply feed_known; [exact K0|exact Ab].
   - rewrite N1. destruct O as [A B C0 Dd E F]. constructor; rewrite ?Sr, ?F1, ?F2, ?F3; auto.
+Qed.
+
+(* any number of such operations *)
+Fixpoint quiet_ops (d : dev) (ops : list dop) : Prop :=
+  match ops with
+  | [] => True
+  | o :: r => op_typed d o /\ Forall (fun m => is_blob_msg m = false) (pubs (snd (step d o))) /\ quiet_ops (fst (step d o)) r
+  end.
+
+Theorem network_client_history ops : forall s c e d,
+  one_client s c (d_name d) -> cl_in_ctl c = [] -> cl_in_blob c = [] ->
+  find_dev s e = Some d -> e <> cl_ctl c -> e <> cl_blob c ->
+  dev_ok d -> net_synced (cl_mirror c) d -> quiet_ops d ops ->
+  exists c',
+    sy_cls (fold_left (fun s o => sstep s (SDrv e o)) ops s) = [c'] /\
+    net_synced (cl_mirror c') (fst (run d ops)) /\
+    find_dev (fold_left (fun s o => sstep s (SDrv e o)) ops s) e = Some (fst (run d ops)) /\
+    cl_in_ctl c' = [] /\ cl_in_blob c' = [].
+Proof.
+  induction ops as [|o r IH]; intros s c e d O I1 I2 Fd H1 H2 D S Q.
+  - cbn [fold_left run fst]. exists c. destruct O as [Cls _ _ _ _ _]. auto.
+  - destruct Q as (T & Nb & Qr). cbn [fold_left run].
+    destruct (network_client_stays_in_sync s c e d o O I1 I2 Fd H1 H2 D T S Nb) as (c1 & Cls1 & S1 & D1 & Fd1 & O1 & J1 & J2 & F2 & F3).
+    destruct (step d o) as [d1 tr] eqn:Es. cbn [fst snd] in *.
+    destruct (IH (sstep s (SDrv e o)) c1 e d1 O1 J1 J2 Fd1 ltac:(rewrite F2; exact H1) ltac:(rewrite F3; exact H2) D1 S1 Qr)
+      as (c' & A & B & C & E1 & E2).
+    exists c'. destruct (run d1 r) as [d2 trs]. cbn [fst] in *. auto.
 Qed.
